@@ -63,7 +63,25 @@ func C09(t *rapid.T) *world.Scenario {
 	n := rapid.IntRange(2, 10).Draw(t, "steps")
 	for i := 0; i < n; i++ {
 		lbl := "s" + itoa(int64(i))
-		switch Weighted(t, lbl+"-kind", 60, 25, 10, 5) {
+		switch Weighted(t, lbl+"-kind", 60, 25, 10, 5, 5) {
+		case 4:
+			// an unsafe request to another origin whose response names a stored resource in
+			// Location / Content-Location (absolute or scheme-relative): only same-origin
+			// URIs are invalidated that way
+			sl := slots[rapid.IntRange(0, nres-1).Draw(t, lbl+"-fslot")]
+			named := Spelling(t, lbl+"-named", sl.res, 50)
+			if i := strings.IndexByte(named, '#'); i >= 0 {
+				named = named[:i]
+			}
+			rq := &world.Req{Method: Pick(t, lbl+"-fm", "POST", "PUT", "DELETE", "PATCH"), URL: Pick(t, lbl+"-ft", ForeignTargets...)}
+			rp := world.Reply{Kind: "resp", Status: Pick(t, lbl+"-fst", 200, 201, 204, 303), Body: world.Body{Len: 5}, Header: [][2]string{H("Date", "$T+0")}}
+			if Pct(t, lbl+"-fnp", 50) {
+				named = NetworkPath(named)
+			}
+			rp.Header = append(rp.Header, H(Pick(t, lbl+"-ffield", "Location", "Content-Location"), named))
+			rq.Uncond = rp
+			sc.Steps = append(sc.Steps, ReqStep(rq))
+			continue
 		case 1:
 			sc.Steps = append(sc.Steps, SleepStep(SecondsNear(t, lbl+"-dur", h.InPlay)))
 			continue
@@ -154,6 +172,12 @@ func C08(t *rapid.T) *world.Scenario {
 		if withVary && Pct(t, lbl+"-hasvary", 90) {
 			full.Header = append(full.Header, H("Vary", "X-A"))
 		}
+		if Pct(t, lbl+"-qnc", 12) {
+			// a field the cache must not replay without validation - but it stays stored, and a
+			// 304 that does not mention it does not remove it
+			full.Header[1] = H("Cache-Control", JoinCC(append(cc, `no-cache="X-Priv"`)))
+			full.Header = append(full.Header, H("X-Priv", "priv$S"))
+		}
 		rq.Uncond = full
 		switch Weighted(t, lbl+"-ans", 55, 35, 10) {
 		case 0:
@@ -182,6 +206,12 @@ func C08(t *rapid.T) *world.Scenario {
 			}
 			if withVary {
 				r304.Header = append(r304.Header, H("Vary", "X-A"))
+			}
+			switch Weighted(t, lbl+"-304date", 80, 14, 6) {
+			case 1: // an origin without a clock sends no Date: the cache records the time of receipt
+				r304.Header = r304.Header[1:]
+			case 2:
+				r304.Header[0] = H("Date", Pick(t, lbl+"-304dinv", "garbage", "0"))
 			}
 			rq.Cond = r304
 		case 1:
@@ -406,6 +436,9 @@ func C07(t *rapid.T) *world.Scenario {
 			"get", "Head", "options", "Trace", "propfind", "Report", "search")
 		target := Pick(t, lbl+"-target", "r1", "r1", "r2", "r3")
 		rq := &world.Req{Method: m, URL: Spelling(t, lbl, target, 60)}
+		if Pct(t, lbl+"-foreign", 12) {
+			rq.URL = Pick(t, lbl+"-ftarget", ForeignTargets...)
+		}
 		st := Pick(t, lbl+"-st", 200, 201, 204, 301, 303, 200, 204, 400, 404, 409, 500, 503)
 		rp := world.Reply{Kind: "resp", Status: st, Body: world.Body{Len: 12}, Header: [][2]string{H("Date", "$T+0")}}
 		locs := []string{"", "", "/", "/p/r~1%2Fx?q=1&z=%C3%A9", "p/r~1%2Fx?q=1&z=%C3%A9", "http://a.test/", "http://a.test:80/", "HTTP://A.TEST/p/./r~1%2Fx?q=1&z=%C3%A9",
